@@ -3,11 +3,12 @@ C19, faithful model: histories of several additions with a sentinel, part 1 — 
 pending-stack semantics commutes with filling the sentinel (`finalRootF_sigma`); with one sentinel
 pending, filling the *first* sentinel (`assemble`) is filling *the* sentinel (`substFirst_of_one`).
 -/
-import ClvmProofs.Lemmas.TreeCacheLabel
+import ClvmProofs.Lemmas.TreeCacheRegion
 
 namespace Clvm.TreeCacheProofs
 open Clvm Clvm.Serde Clvm.Serde.Backref Clvm.Serde.TreeCache Clvm.Backref
 open Clvm.Serde.Incremental (substFirst assembleFrom assemble noSentinel)
+open Clvm.Incremental (CurOk)
 
 theorem cnt_substAll (m : Bytes) (x : Tree) : ∀ (t : Tree), cnt m (substAll m x t) = cnt m t * cnt m x := by
   intro t
@@ -107,5 +108,444 @@ theorem finalRootF_sigma (m : Bytes) (x : Tree) (K K' : Key → Tree) : ∀ (ops
             rw [this]
             exact ih ws _ R (fun n' hn => hk n' (List.mem_cons_of_mem _ hn)) h
           · cases h
+
+/-! ### the state between additions -/
+
+/-- contents of keys: content keys are canonical, `F` gives the contents of the fresh `NodePtr`s -/
+def KF (F : Nat → Tree) : Key → Tree
+  | .atom b => .atom b
+  | .shared t => t
+  | .fresh n => F n
+
+def IdsBelow (next : Nat) (n : Node) : Prop := ∀ s, s ∈ subs n → ∀ id, s.key = Key.fresh id → id < next
+def SharedClean (m : Bytes) (n : Node) : Prop := ∀ s, s ∈ subs n → ∀ t, s.key = Key.shared t → cnt m t = 0
+
+/-- nodes still to be written -/
+def Qw (m : Bytes) (F : Nat → Tree) (next : Nat) (n : Node) : Prop :=
+  KOk (KF F) n ∧ IdsBelow next n ∧ SharedClean m n
+
+/-- nodes of pending `Cons` operations -/
+def Qo (m : Bytes) (next : Nat) (n : Node) : Prop :=
+  (∀ id, n.key = Key.fresh id → id < next) ∧ (∀ t, n.key = Key.shared t → cnt m t = 0)
+
+theorem subs_trans : ∀ (n s s' : Node), s ∈ subs n → s' ∈ subs s → s' ∈ subs n := by
+  intro n
+  induction n with
+  | atom b =>
+    intro s s' h h'
+    simp only [subs, List.mem_singleton] at h
+    subst h; exact h'
+  | pair id l r ihl ihr =>
+    intro s s' h h'
+    simp only [subs, List.mem_cons, List.mem_append] at h
+    rcases h with rfl | h | h
+    · exact h'
+    · simp only [subs, List.mem_cons, List.mem_append]; exact .inr (.inl (ihl s s' h h'))
+    · simp only [subs, List.mem_cons, List.mem_append]; exact .inr (.inr (ihr s s' h h'))
+
+theorem Qw.children {m F next id l r} (h : Qw m F next (.pair id l r)) : Qw m F next l ∧ Qw m F next r := by
+  obtain ⟨h1, h2, h3⟩ := h
+  have hl : ∀ s, s ∈ subs l → s ∈ subs (Node.pair id l r) := fun s hs => by simp [subs, hs]
+  have hr : ∀ s, s ∈ subs r → s ∈ subs (Node.pair id l r) := fun s hs => by simp [subs, hs]
+  exact ⟨⟨h1.left, fun s hs => h2 s (hl s hs), fun s hs => h3 s (hl s hs)⟩,
+    ⟨h1.right, fun s hs => h2 s (hr s hs), fun s hs => h3 s (hr s hs)⟩⟩
+
+theorem Qw.toQo {m F next n} (h : Qw m F next n) : Qo m next n :=
+  ⟨fun id hk => h.2.1 n (self_mem_subs n) id hk, fun t hk => h.2.2 n (self_mem_subs n) t hk⟩
+
+/-- the invariant of a serializer that waits for the next addition; `A` = the tree assembled so far, with
+the pending sentinel as the marker -/
+structure RI (m : Bytes) (F : Nat → Tree) (next : Nat) (C : Nat → Tree) (s : FSer) (A : Tree) : Prop where
+  uinv : UInv (some m) (KF F) C s.tc
+  cur : CurOk s.output
+  wsQ : ∀ n, n ∈ s.writeStack → Qw m F next n
+  wsClean : tot m s.writeStack = 0
+  opsQ : ∀ n, FReadOp.cons n ∈ s.readOpStack → Qo m next n
+  opsPairs : OpsPairs s.readOpStack
+  head : HeadNotConsF s.readOpStack
+  stackOk : StackOk s.tc
+  clean : Clean (some m) (M C s.tc)
+  psim : PSim s.output.buf (opsOfF s.readOpStack) (M C s.tc)
+  freshLt : ∀ id i, alGet s.tc.nodeMap (Key.fresh id) = some i → id < next
+  sharedCl : ∀ t i, alGet s.tc.nodeMap (Key.shared t) = some i → cnt m t = 0
+  pend : ∀ s0, alGet s.tc.nodeMap (Key.atom m) = some s0 → C s0 = Tree.atom m
+  fin : finalRootF (KF F) s.readOpStack (Tree.atom m :: s.writeStack.map Node.tree) (M C s.tc) = some (Tree.pair A Tree.nil)
+  cntA : cnt m A = 1
+
+theorem ri_new (m : Bytes) (hm : m ≠ []) : RI m (fun _ => Tree.nil) 0 (fun _ => Tree.nil) (FSer.new (some m)) (Tree.atom m) where
+  uinv := uinv_new (some m) _
+  cur := rfl
+  wsQ := by intro n hn; simp [FSer.new] at hn
+  wsClean := rfl
+  opsQ := by intro n hn; simp [FSer.new] at hn
+  opsPairs := by intro n hn; simp [FSer.new] at hn
+  head := trivial
+  stackOk := by intro i hi; simp [FSer.new, TC.new] at hi
+  clean := by
+    intro m' hm'
+    simp only [Option.some.injEq] at hm'
+    subst hm'
+    show cnt m Tree.nil = 0
+    simp only [Tree.nil, cnt]
+    rw [if_neg (fun e => hm e.symm)]
+  psim := fun _ _ hc => Steps.refl hc
+  freshLt := by intro id i h; simp [FSer.new, TC.new, alGet] at h
+  sharedCl := by intro t i h; simp [FSer.new, TC.new, alGet] at h
+  pend := by intro s0 h; simp [FSer.new, TC.new, alGet] at h
+  fin := rfl
+  cntA := by simp [cnt]
+
+/-! ### the key-content function after an addition -/
+
+/-- contents of the fresh `NodePtr`s after `node` (tree `t`) was added: the nodes of `node` have their own
+contents, older ones are refined -/
+def nextF (m : Bytes) (t : Tree) (shared : Bool) (next : Nat) (F : Nat → Tree) (node : Node) : Nat → Tree :=
+  fun id => if shared then substAll m t (F id)
+            else if next ≤ id then KFind node (Key.fresh id) else substAll m t (F id)
+
+theorem kOk_build (m : Bytes) (t : Tree) (shared : Bool) (next : Nat) (F : Nat → Tree) :
+    KOk (KF (nextF m t shared next F (buildNode shared t next).1)) (buildNode shared t next).1 := by
+  unfold buildNode
+  cases shared with
+  | true =>
+    simp only [if_true]
+    intro s hs
+    obtain ⟨t', rfl⟩ := subs_labelShared t s hs
+    cases t' with
+    | atom b => rfl
+    | pair l r => simp [labelShared, Node.key, Node.tree, KF]
+  | false =>
+    simp only [Bool.false_eq_true, if_false]
+    intro s hs
+    have hk := kOk_labelFresh t next s hs
+    rcases key_cases s with ⟨b, hb, hkb⟩ | ⟨id, l, r, he⟩
+    · rw [hkb, hb]; rfl
+    · obtain ⟨id', e1, e2, _⟩ := (labelFresh_ids t next).2 s hs id l r he
+      subst e1
+      have hkey : s.key = Key.fresh id' := by rw [he]; rfl
+      rw [hkey] at hk ⊢
+      simp only [KF, nextF, Bool.false_eq_true, if_false, if_pos e2]
+      exact hk
+
+theorem build_keys (shared : Bool) (t : Tree) (next : Nat) :
+    next ≤ (buildNode shared t next).2 ∧
+    ∀ s, s ∈ subs (buildNode shared t next).1 →
+      (∀ id, s.key = Key.fresh id → shared = false ∧ next ≤ id ∧ id < (buildNode shared t next).2) ∧
+      (∀ t', s.key = Key.shared t' → shared = true ∧ t' = s.tree) := by
+  unfold buildNode
+  cases shared with
+  | true =>
+    simp only [if_true]
+    refine ⟨Nat.le_refl _, fun s hs => ?_⟩
+    obtain ⟨t', rfl⟩ := subs_labelShared t s hs
+    cases t' with
+    | atom b =>
+      refine ⟨?_, ?_⟩
+      · intro id h; simp [labelShared, Node.key] at h
+      · intro t' h; simp [labelShared, Node.key] at h
+    | pair l r =>
+      refine ⟨?_, ?_⟩
+      · intro id h; simp [labelShared, Node.key] at h
+      · intro t' h
+        simp only [labelShared, Node.key, Key.shared.injEq] at h
+        refine ⟨trivial, ?_⟩
+        rw [← h]; rfl
+  | false =>
+    simp only [Bool.false_eq_true, if_false]
+    refine ⟨(labelFresh_ids t next).1, fun s hs => ?_⟩
+    rcases key_cases s with ⟨b, hb, hkb⟩ | ⟨id, l, r, he⟩
+    · rw [hkb]
+      refine ⟨?_, ?_⟩
+      · intro id h; cases h
+      · intro t' h; cases h
+    · obtain ⟨id', e1, e2, e3⟩ := (labelFresh_ids t next).2 s hs id l r he
+      subst e1
+      have hkey : s.key = Key.fresh id' := by rw [he]; rfl
+      rw [hkey]
+      refine ⟨?_, ?_⟩
+      · intro id h
+        simp only [Key.fresh.injEq] at h
+        subst h
+        exact ⟨trivial, e2, e3⟩
+      · intro t' h; cases h
+
+theorem build_tree (shared : Bool) (t : Tree) (next : Nat) : (buildNode shared t next).1.tree = t :=
+  (buildNode_ok shared t next).2
+
+/-! ### helper lemmas for one addition -/
+
+theorem tot_zero_mem (m : Bytes) : ∀ (ws : List Node), tot m ws = 0 → ∀ n, n ∈ ws → cnt m n.tree = 0 := by
+  intro ws
+  induction ws with
+  | nil => intro _ n hn; cases hn
+  | cons x r ih =>
+    intro h n hn
+    simp only [tot, List.map_cons, List.sum_cons] at h
+    simp only [List.mem_cons] at hn
+    rcases hn with rfl | hn
+    · omega
+    · exact ih (by simp only [tot]; omega) n hn
+
+theorem map_sigma_clean (m : Bytes) (x : Tree) : ∀ (ws : List Node), tot m ws = 0 →
+    (ws.map Node.tree).map (substAll m x) = ws.map Node.tree := by
+  intro ws
+  induction ws with
+  | nil => intro _; rfl
+  | cons n r ih =>
+    intro h
+    have h0 := tot_zero_mem m (n :: r) h n List.mem_cons_self
+    have hr : tot m r = 0 := by simp only [tot, List.map_cons, List.sum_cons] at h ⊢; omega
+    simp only [List.map_cons, substAll_clean m x _ h0, ih hr]
+
+theorem mirror_nil_cnt (m : Bytes) (C : Nat → Tree) : ∀ (st : List Nat), cnt m (mirror C st) = 0 → cnt m Tree.nil = 0 := by
+  intro st
+  induction st with
+  | nil => intro h; exact h
+  | cons i r ih =>
+    intro h
+    simp only [mirror, cnt] at h
+    exact ih (by omega)
+
+/-- a clean parse stack is untouched by the refinement -/
+theorem mirror_refine (m : Bytes) (x : Tree) (C C' : Nat → Tree) : ∀ (st : List Nat),
+    (∀ i, i ∈ st → C' i = substAll m x (C i)) → cnt m (mirror C st) = 0 → mirror C' st = mirror C st := by
+  intro st
+  induction st with
+  | nil => intro _ _; rfl
+  | cons i r ih =>
+    intro hc h
+    simp only [mirror, cnt] at h
+    simp only [mirror]
+    rw [hc i List.mem_cons_self, substAll_clean m x _ (by omega), ih (fun j hj => hc j (List.mem_cons_of_mem _ hj)) (by omega)]
+
+theorem Qw_transport {m : Bytes} {t : Tree} {shared : Bool} {next next' : Nat} {F : Nat → Tree} {node n : Node}
+    (h : Qw m F next n) (hcl : cnt m n.tree = 0) (hle : next ≤ next') :
+    Qw m (nextF m t shared next F node) next' n := by
+  obtain ⟨h1, h2, h3⟩ := h
+  refine ⟨?_, fun s hs id hk => Nat.lt_of_lt_of_le (h2 s hs id hk) hle, h3⟩
+  intro s hs
+  have hold := h1 s hs
+  have hcs : cnt m s.tree = 0 := by have := subs_cnt m n s hs; omega
+  cases hk : s.key with
+  | atom b => rw [hk] at hold; exact hold
+  | shared t' => rw [hk] at hold; exact hold
+  | fresh id =>
+    rw [hk] at hold
+    have hlt := h2 s hs id hk
+    simp only [KF] at hold ⊢
+    unfold nextF
+    cases shared with
+    | true => simp only [if_true]; rw [hold, substAll_clean m t _ hcs]
+    | false =>
+      simp only [Bool.false_eq_true, if_false]
+      rw [if_neg (by omega), hold, substAll_clean m t _ hcs]
+
+theorem Qo_agree {m : Bytes} {t : Tree} {shared : Bool} {next : Nat} {F : Nat → Tree} {node n : Node}
+    (hp : IsPair n) (h : Qo m next n) :
+    KF (nextF m t shared next F node) n.key = substAll m t (KF F n.key) := by
+  obtain ⟨h1, h2⟩ := h
+  cases hk : n.key with
+  | atom b =>
+    cases n with
+    | atom _ => cases hp
+    | pair id l r => cases id <;> simp [Node.key] at hk
+  | shared t' => simp only [KF]; rw [substAll_clean m t _ (h2 t' hk)]
+  | fresh id =>
+    have hlt := h1 id hk
+    simp only [KF]
+    unfold nextF
+    cases shared with
+    | true => simp
+    | false =>
+      simp only [Bool.false_eq_true, if_false]
+      rw [if_neg (by omega)]
+
+/-! ### one addition -/
+
+/-- **one `add` in the region**: from a waiting serializer, adding a tree with at most one sentinel —
+built with fresh `NodePtr`s if it has one — either completes (the decoder then holds the assembled tree,
+free of sentinels) or leaves a waiting serializer again, with the assembled tree refined. -/
+theorem add_step (m : Bytes) (F : Nat → Tree) (next : Nat) (C : Nat → Tree) (s : FSer) (A : Tree)
+    (hri : RI m F next C s A) (shared : Bool) (t : Tree) (hc1 : cnt m t ≤ 1) (hsh : cnt m t = 1 → shared = false)
+    (s' : FSer) (d : Bool) (u : FUndo) (h : s.add (buildNode shared t next).1 = .ok (s', d, u)) :
+    (d = true → s'.readOpStack = [] ∧ cnt m (substAll m t A) = 0 ∧
+      PSim s'.output.buf [] (Tree.pair (substAll m t A) Tree.nil)) ∧
+    (d = false → ∃ F' C', RI m F' (buildNode shared t next).2 C' s' (substAll m t A)) := by
+  obtain ⟨hnext, hkeys⟩ := build_keys shared t next
+  have htree := build_tree shared t next
+  have hkok := kOk_build m t shared next F
+  generalize hnode : (buildNode shared t next).1 = node at h hkeys htree hkok
+  generalize hnext' : (buildNode shared t next).2 = next' at hnext hkeys
+  -- the new key-content function
+  have hK'def : ∀ k, KF (nextF m t shared next F node) k = KF (nextF m t shared next F node) k := fun _ => rfl
+  generalize hF' : nextF m t shared next F node = F' at hkok hK'def
+  have hnf : ∀ (x : Node) (hx : Qw m F next x) (hcl : cnt m x.tree = 0), Qw m F' next' x := by
+    intro x hx hcl; rw [← hF']; exact Qw_transport hx hcl hnext
+  have hagreeOps : ∀ n, IsPair n → Qo m next n → KF F' n.key = substAll m t (KF F n.key) := by
+    intro n hp hq; rw [← hF']; exact Qo_agree hp hq
+  have hops_ne : s.readOpStack ≠ [] := by
+    intro he
+    have := hri.fin
+    rw [he] at this
+    simp [finalRootF] at this
+  unfold FSer.add at h
+  have hemp : s.readOpStack.isEmpty = false := by
+    cases hro : s.readOpStack with
+    | nil => exact absurd hro hops_ne
+    | cons _ _ => rfl
+  simp only [hemp, Bool.false_eq_true, if_false] at h
+  cases hu : s.tc.update node with
+  | error e => simp [hu] at h
+  | ok tc1 =>
+    simp only [hu] at h
+    have hagree : ∀ k i, alGet s.tc.nodeMap k = some i → ¬ IsSK (some m) k →
+        KF F' k = sigma (some m) node.tree (KF F k) := by
+      intro k i hki hns
+      rw [htree]
+      show KF F' k = substAll m t (KF F k)
+      cases k with
+      | atom b =>
+        have hb : b ≠ m := fun e => hns ⟨m, rfl, by rw [e]⟩
+        simp [KF, substAll, hb]
+      | shared t' =>
+        simp only [KF]
+        rw [substAll_clean m t _ (hri.sharedCl t' i hki)]
+      | fresh id =>
+        have hlt := hri.freshLt id i hki
+        simp only [KF]
+        rw [← hF']
+        unfold nextF
+        cases shared with
+        | true => simp
+        | false => simp only [Bool.false_eq_true, if_false]; rw [if_neg (by omega)]
+    obtain ⟨C', i1, hsame, hst, hgrow, hfreshk, hsentNew, hsentHit⟩ :=
+      update_spec hri.uinv node (KF F') hkok
+        (fun m' hm' => by simp only [Option.some.injEq] at hm'; subst hm'; rw [htree]; exact hc1)
+        hagree (fun m' s0 hm' hs0 => by simp only [Option.some.injEq] at hm'; subst hm'; exact hri.pend s0 hs0) hu
+    rw [htree] at hsame
+    have hsame' : ∀ j, j < s.tc.entries.size → C' j = substAll m t (C j) := hsame
+    -- the parse stack is untouched
+    have hMeq : M C' tc1 = M C s.tc := by
+      unfold M
+      rw [hst]
+      exact mirror_refine m t C C' _ (fun i hi => hsame' i (hri.stackOk i hi)) (hri.clean m rfl)
+    have hnil : cnt m Tree.nil = 0 := mirror_nil_cnt m C _ (hri.clean m rfl)
+    generalize (List.map Node.size (node :: s.writeStack)).sum + 2 = fuel at h
+    cases hl : fAddLoop fuel { s with tc := tc1, writeStack := node :: s.writeStack } with
+    | error e => rw [hl] at h; cases h
+    | ok r =>
+      obtain ⟨s1, d1⟩ := r
+      rw [hl] at h
+      simp only [Except.ok.injEq, Prod.mk.injEq] at h
+      obtain ⟨rfl, rfl, _⟩ := h
+      have hwscl : ∀ n, n ∈ s.writeStack → cnt m n.tree = 0 := tot_zero_mem m _ hri.wsClean
+      -- the new node
+      have hqnode : Qw m F' next' node := by
+        refine ⟨hkok, fun x hx id hk => ((hkeys x hx).1 id hk).2.2, ?_⟩
+        intro x hx t' hk
+        obtain ⟨hsh', ht'⟩ := (hkeys x hx).2 t' hk
+        have hct : cnt m t = 0 := by
+          cases hz : cnt m t with
+          | zero => rfl
+          | succ k =>
+            have : cnt m t = 1 := by omega
+            rw [hsh this] at hsh'; cases hsh'
+        have := subs_cnt m node x hx
+        rw [htree, hct] at this
+        rw [ht']; omega
+      have hfin' : finalRootF (KF F') s.readOpStack ((node :: s.writeStack).map Node.tree) (M C' tc1) =
+          some (Tree.pair (substAll m t A) Tree.nil) := by
+        have := finalRootF_sigma m t (KF F) (KF F') s.readOpStack _ _ _
+          (fun n hn => hagreeOps n (hri.opsPairs n hn) (hri.opsQ n hn)) hri.fin
+        simp only [List.map_cons, substAll, if_true, map_sigma_clean m t _ hri.wsClean] at this
+        rw [substAll_clean m t _ (hri.clean m rfl), substAll_clean m t Tree.nil hnil] at this
+        rw [hMeq, List.map_cons, htree]
+        exact this
+      have hpost := fAddLoop_sim (some m) (KF F') C' (Qw m F' next') (Qo m next')
+        (fun id l r hq => hq.children) (fun n hq => hq.1) (fun n hq => hq.toQo) _ _ s1 d1 _ hl i1 hri.cur
+        (by
+          intro n hn
+          simp only [List.mem_cons] at hn
+          rcases hn with rfl | hn
+          · exact hqnode
+          · exact hnf n (hri.wsQ n hn) (hwscl n hn))
+        (fun n hn => ⟨fun id hk => Nat.lt_of_lt_of_le ((hri.opsQ n hn).1 id hk) hnext, (hri.opsQ n hn).2⟩)
+        hri.opsPairs hri.head
+        (by intro m' hm'; simp only [Option.some.injEq] at hm'; subst hm'; show cnt m (M C' tc1) = 0; rw [hMeq]; exact hri.clean m rfl)
+        (by show PSim s.output.buf (opsOfF s.readOpStack) (M C' tc1); rw [hMeq]; exact hri.psim)
+        hfin'
+        (by
+          intro i hi
+          show i < tc1.entries.size
+          have : i ∈ s.tc.stack.reverse := by rw [← hst]; exact hi
+          have := hri.stackOk i this
+          omega)
+      obtain ⟨p1, p2, p3, p4, p5, ⟨p6, p7⟩, p8, p9, p10, p11, p12⟩ := hpost
+      have htot := p11 m rfl
+      simp only [tot, List.map_cons, List.sum_cons, htree] at htot
+      have hws0 : (s.writeStack.map (fun n => cnt m n.tree)).sum = 0 := hri.wsClean
+      rw [hws0] at htot
+      refine ⟨fun hd => ?_, fun hd => ?_⟩
+      · subst hd
+        rw [if_pos rfl] at p12
+        obtain ⟨q1, _, q3⟩ := p12
+        have hcl := p8 m rfl
+        rw [q3] at hcl
+        simp only [cnt] at hcl
+        refine ⟨q1, by omega, ?_⟩
+        rw [q1, q3] at p9
+        exact p9
+      · subst hd
+        rw [if_neg (by simp)] at p12
+        obtain ⟨m0, hm0, q2, q3⟩ := p12
+        simp only [Option.some.injEq] at hm0
+        subst hm0
+        simp only [Bool.false_eq_true, if_false] at htot
+        have hct1 : cnt m t = 1 := by omega
+        have hshf : shared = false := hsh hct1
+        have htw : tot m s1.writeStack = 0 := by simp only [tot]; omega
+        refine ⟨F', C', ⟨p1, p2, p3, htw, p4, p5, q2, p6, p8, p9, ?_, ?_, ?_, q3, ?_⟩⟩
+        · -- freshLt
+          intro id i hreg
+          rw [p10] at hreg
+          rcases hfreshk (Key.fresh id) (by rw [hreg]; simp) with hh | ⟨x, hx, hkx⟩
+          · cases hg : alGet s.tc.nodeMap (Key.fresh id) with
+            | none => exact absurd hg hh
+            | some i0 => exact Nat.lt_of_lt_of_le (hri.freshLt id i0 hg) hnext
+          · exact ((hkeys x hx).1 id hkx).2.2
+        · -- sharedCl
+          intro t' i hreg
+          rw [p10] at hreg
+          rcases hfreshk (Key.shared t') (by rw [hreg]; simp) with hh | ⟨x, hx, hkx⟩
+          · cases hg : alGet s.tc.nodeMap (Key.shared t') with
+            | none => exact absurd hg hh
+            | some i0 => exact hri.sharedCl t' i0 hg
+          · have := ((hkeys x hx).2 t' hkx).1
+            rw [hshf] at this; cases this
+        · -- pend
+          intro s0 hs0
+          rw [p10] at hs0
+          obtain ⟨j, hj, hcj⟩ := hsentHit m rfl (by rw [htree]; exact hct1) (by
+            intro x hx hp hcx
+            cases x with
+            | atom _ => cases hp
+            | pair id l r =>
+              cases id with
+              | none =>
+                have := ((hkeys _ hx).2 _ rfl).1
+                rw [hshf] at this; cases this
+              | some id0 =>
+                have hge := ((hkeys _ hx).1 id0 rfl).2.1
+                cases hg : alGet s.tc.nodeMap (Node.pair (some id0) l r).key with
+                | none => rfl
+                | some i0 =>
+                  have := hri.freshLt id0 i0 hg
+                  omega)
+          rw [hj] at hs0
+          simp only [Option.some.injEq] at hs0
+          subst hs0
+          exact hcj
+        · -- cntA
+          rw [cnt_substAll, hri.cntA, hct1]
 
 end Clvm.TreeCacheProofs
